@@ -72,6 +72,7 @@ def run(rep):
                           ok_detail='same identifier expression as the definition')
         rep.floor('uses of ENTRY_ constants in helpers', n_sites, 2)
     # ---- compute ------------------------------------------------------------------------------------------------------------------------
+    import re as _re
     cm = []
     for q, v in ogp.summaries.items():
         for t in E.find_templates(v, lambda t: t[3] == q and E.tmpl_text(t).startswith('pub mod compute {')):
@@ -89,8 +90,14 @@ def run(rep):
         ent = ('elem', s[2], s[1])
         rep.check(s[1][0] == 'f' and s[1][2] == 'entry_points' and stage_only(s[4], ent, 'Compute') and not s[5], 'C14.compute', 'compute-entries', where,
                   f'compute items are generated for entries filtered by {[E.show(c, maxdepth=5) for c in s[4]]}; expected stage == Compute only', ok_detail='one item pair per compute entry')
-        pts = E.find_templates(s[3], lambda y: '-> wgpu :: ComputePipeline {' in E.tmpl_text(y))
-        wts = E.find_templates(s[3], lambda y: ': [ u32 ; 3 ] = [' in E.tmpl_text(y))
+        # the items of one entry may be appended by several statements of one loop (`items.extend(workgroup_size(e)); items.extend(pipeline(e));`):
+        # repetitions over the same entries with the same selection are read as one
+        bodies = [s[3]]
+        for o in ss[1:]:
+            if o[1] == s[1] and not o[5] and E.alpha_key((s[1], [E.Interp.rename_elem(None, c_, o[2], s[2]) for c_ in o[4]])) == E.alpha_key((s[1], list(s[4]))):
+                bodies.append(E.Interp.rename_elem(None, o[3], o[2], s[2]))
+        pts = [y for b_ in bodies for y in E.find_templates(b_, lambda y: '-> wgpu :: ComputePipeline {' in E.tmpl_text(y))]
+        wts = [y for b_ in bodies for y in E.find_templates(b_, lambda y: ': [ u32 ; 3 ] = [' in E.tmpl_text(y))]
         rep.check(len(pts) == 1 and len(wts) == 1, 'C14.compute', 'compute-items', where, f'{len(pts)} pipeline constructors / {len(wts)} workgroup constants per entry', ok_detail='one each')
         for pt in pts[:1]:
             pt = E.flatten(pt)
@@ -102,7 +109,6 @@ def run(rep):
             ep = hole_after_seq(pt, 'entry_point : Some (')
             rep.check(ep == ('f', ent, 'name'), 'C14.compute', 'pipeline-entry-point', where,
                       f'entry_point is Some({E.show(ep, maxdepth=5) if ep else None}); expected the entry point\'s exact name', ok_detail='entry_point: Some(entry.name)')
-            import re as _re
             from tokrules import find_struct_expr
             mm = _re.search(r'let (\w+) = super :: create_shader_module \( (\w+) \) ;', ptxt)
             lm = _re.search(r'let (\w+) = super :: create_pipeline_layout \( (\w+) \) ;', ptxt)
